@@ -84,12 +84,40 @@ inductive WriteOp where
   | set (b : Bk) (a : Arr)        -- assign a new array
   | add (b : Bk) (k : Int)        -- in-place `+= k` on an initialised bucket
   | same (b : Bk)                 -- assign a copy of the current content
+  -- charge held as clusters (`Charge.add_charge`, `add_charge_dataframe`, `set_frame_values`,
+  -- `remove_from_frame`); the bucket's array is the per-pixel sum of the clusters
+  | addAt (b : Bk) (adds : List Int)    -- new clusters / an array addition: per-pixel increments
+  | scale (b : Bk) (k : Int)            -- every cluster's `number` multiplied by `k`
+  | moveTo (b : Bk) (idx : List Nat)    -- the clusters of pixel `j` are moved to pixel `idx[j]`
+  | zeroAt (b : Bk) (p : Nat)           -- the clusters of pixel `p` are removed
+  | collect                             -- `pixel.array += charge.array` (simple collection)
 deriving Repr
+
+def addLists : List Int → List Int → List Int
+  | x :: xs, y :: ys => (x + y) :: addLists xs ys
+  | xs, [] => xs
+  | [], _ => []
+
+/-- per-pixel sums after moving the content of pixel `j` to pixel `idx[j]` -/
+def moveVals (vals : List Int) (idx : List Nat) : List Int :=
+  (List.range vals.length).map (fun i =>
+    ((vals.zip idx).filter (fun p => p.2 == i)).foldl (fun acc p => acc + p.1) 0)
+
+def mapVals (s : Snap) (b : Bk) (f : List Int → List Int) : Snap :=
+  s.set b ((s.get b).map (fun a => { a with vals := f a.vals }))
 
 def WriteOp.apply (s : Snap) : WriteOp → Snap
   | .set b a => s.set b (some a)
-  | .add b k => s.set b ((s.get b).map (fun a => { a with vals := a.vals.map (· + k) }))
+  | .add b k => mapVals s b (fun v => v.map (· + k))
   | .same _ => s
+  | .addAt b adds => mapVals s b (fun v => addLists v adds)
+  | .scale b k => mapVals s b (fun v => v.map (· * k))
+  | .moveTo b idx => mapVals s b (fun v => moveVals v idx)
+  | .zeroAt b p => mapVals s b (fun v => v.set p 0)
+  | .collect =>
+    match s.charge with
+    | some c => mapVals s .pixel (fun v => addLists v c.vals)
+    | none => s
 
 /-- one executed model: where it is configured and what it does to the buckets -/
 structure ModelRun where
